@@ -333,3 +333,58 @@ theorem sortDesc_sorted (l : List Snap) : isSortedDesc (sortDesc l) = true := by
   | cons x t ih => exact insertDesc_sorted x _ ih
 
 end Rustic.Forget
+
+namespace Rustic.Forget
+
+/-! ### the rank counts the distinct newer periods -/
+
+/-- number of maximal runs of equal period keys in a newest-first list (`prev` = key of the snapshot before the
+list); when equal keys are adjacent (`PeriodContiguous`) this is the number of distinct periods. -/
+def runsFrom {κ : Type} [DecidableEq κ] (key : Snap → κ) : Option κ → List Snap → Nat
+  | _, [] => 0
+  | prev, a :: t => (if prev = some (key a) then 0 else 1) + runsFrom key (some (key a)) t
+
+theorem rank_eq_runs {κ : Type} [DecidableEq κ] (key : Snap → κ) (eq : Snap → Snap → Bool)
+    (heq : ∀ a b, eq a b = true ↔ key a = key b) (o : KeepOptions) (now : Int) (l : List Snap) :
+    ∀ (p : Option Snap) (i : Nat), i < l.length →
+      (∀ c ∈ (ctxFrom p l).take i, kind o now c = .ord) →
+      rank o now eq ((ctxFrom p l).take i) = runsFrom key (p.map key) (l.take i) := by
+  induction l with
+  | nil => intro p i hi; simp at hi
+  | cons a t ih =>
+    intro p i hi hord
+    cases i with
+    | zero => simp [rank, runsFrom]
+    | succ i =>
+      have hi' : i < t.length := by simpa using hi
+      obtain ⟨b, t', ht⟩ : ∃ b t', t = b :: t' := by
+        cases t with
+        | nil => simp at hi'
+        | cons b t' => exact ⟨b, t', rfl⟩
+      simp only [ctxFrom, List.take_succ_cons] at hord ⊢
+      have hc : kind o now ⟨p, a, t.head?⟩ = .ord := hord _ (by simp)
+      have hrest : ∀ c ∈ (ctxFrom (some a) t).take i, kind o now c = .ord := fun c hc' => hord c (by simp [hc'])
+      have ih' := ih (some a) i hi' hrest
+      simp only [rank, List.countP_cons] at ih' ⊢
+      rw [ih']
+      simp only [runsFrom, Option.map_some]
+      have hh : ordHead o now eq ⟨p, a, t.head?⟩ = !(decide (p.map key = some (key a))) := by
+        simp only [ordHead, hc, beq_self_eq_true, Bool.true_and, headOf, ht, List.head?_cons, Option.isNone_some,
+          Bool.false_or]
+        cases p with
+        | none => simp
+        | some q =>
+          simp only [Option.map_some, Option.some.injEq]
+          by_cases hk : key a = key q
+          · have : eq a q = true := (heq a q).2 hk
+            simp [this, hk]
+          · have : eq a q = false := by
+              cases he : eq a q with
+              | false => rfl
+              | true => exact absurd ((heq a q).1 he) hk
+            have hk' : ¬ key q = key a := fun h => hk h.symm
+            simp [this, hk']
+      rw [hh]
+      by_cases hp : p.map key = some (key a) <;> simp [hp] <;> omega
+
+end Rustic.Forget
